@@ -96,6 +96,12 @@ pub fn with_frame<R>(fr: &Frame, f: impl FnOnce(&[u8]) -> R) -> Option<R> {
         put(&mut *b, start + 1, fr.pt);
         put(&mut *b, start + 2, (fr.v >> 8) as u8);
         put(&mut *b, start + 3, fr.v as u8);
+        // the first body words are not zero (an index that wraps around lands on them)
+        if announced >= 12 {
+            for k in 4..12 {
+                put(&mut *b, start + k, 0x5a);
+            }
+        }
         if fr.b0 & 0x20 != 0 && announced >= 8 {
             // a plausible padding count in the last announced byte
             put(&mut *b, end_announced - 1, fr.pad);
